@@ -600,7 +600,11 @@ def gen_nested(rng):
             # the actor's callback raises (instead of its batch, or at the
             # end of it with dispatching still disabled); the program
             # catches that and enables dispatching (again)
-            'fault': rng.choice([None, None, None, 'instead', 'in_batch'])}
+            'fault': rng.choice([None, None, None, 'instead', 'in_batch']),
+            # another World listens to this one (registered as a handler, or
+            # held as a component of one of its entities)
+            'listener_world': rng.choice([None, None, None, 'handler',
+                                          'component'])}
 
 
 def run_nested(case):
@@ -678,6 +682,15 @@ def run_nested(case):
             state['acted'] = True       # not yet: told at once, no batch
             ents[k] = w.create_entity(c)
     state['acted'] = False
+    other = None
+    if case.get('listener_world') == 'handler':
+        other = desper.World()
+        w.add_handler(other)
+    elif case.get('listener_world') == 'component':
+        other = desper.World()
+        w.create_entity(other)
+    if other is not None:
+        res.tags['second_world_listening'].add(case['listener_world'])
     del log[:]
     w.dispatch_enabled = False
     for k, what in enumerate(ops):
